@@ -164,6 +164,7 @@ STRUCTS = [
     (["R2", "SE2"], [(1,), (0, 1)], {1}, False),
     (["R3", "R3"], [(0, 1), (0, 1)], {1}, True),
     (["SE2", "R2", "SE2"], [(0, 1, 2)], {1}, False),
+    (["R2", "SE2", "SE2"], [(1, 0), (1, 2)], set(), True),  # fix_first_pose fixes the FIRST LISTED vertex, here a landmark
 ]
 SE3_STRUCTS = [
     (["SE3", "R3"], [(0, 1)], {1}, False),
